@@ -245,8 +245,8 @@ def run(ctx):
     hier_case(ctx, chi, ctx.sub_rng(10 ** 6), 0, subs=[(5, 1, 1, None), (0, 1, 0, None)], n_ids=2)
     hier_case(ctx, chi, ctx.sub_rng(10 ** 6 + 1), 1, subs=[(4, 2, 0, None)], n_ids=3)
     for i in range(n):
-        loglik_case(ctx, chi, ctx.sub_rng(2 * i), i)
-        hier_case(ctx, chi, ctx.sub_rng(2 * i + 1), i)
+        ctx.guard(loglik_case, ctx, chi, ctx.sub_rng(2 * i), i)
+        ctx.guard(hier_case, ctx, chi, ctx.sub_rng(2 * i + 1), i)
 
 
 def replay(ctx, data):
